@@ -51,7 +51,20 @@ func Verif_C33_estimateVsActual() {
 	nmb := verifU32("miniblocks")
 	ntx := verifU32("txs")
 	verifAssume(nmb >= 1 && nmb <= uint32(verifParam("maxMiniblocks")) && ntx <= 1<<20 && ntx >= nmb)
-	if bsc.isMaxBlockSizeReached(nmb, ntx) || bsc.isMaxBlockSizeWithoutThrottleReached(nmb, ntx) {
+	// the way the block builders ask: part of the body is already accumulated, the rest is "new" (possibly nothing)
+	accMb, accTx := verifU32("accumulatedMiniblocks"), verifU32("accumulatedTxs")
+	verifAssume(accMb <= nmb && accTx <= ntx)
+	bsc.Init()
+	bsc.AddNumMiniBlocks(int(accMb))
+	bsc.AddNumTxs(int(accTx))
+	// either of the two estimate queries, each on its own, must be safe
+	reached := false
+	if verifBool("throttledQuery") {
+		reached = bsc.IsMaxBlockSizeReached(int(nmb-accMb), int(ntx-accTx))
+	} else {
+		reached = bsc.IsMaxBlockSizeWithoutThrottleReached(int(nmb-accMb), int(ntx-accTx))
+	}
+	if reached {
 		verifReach("estimate says too big")
 		return
 	}
